@@ -1109,8 +1109,9 @@ class NamespaceManager(dict):
             self._prefix_renamed_map[prefix] = existing_ns
             return existing_ns
 
-        if prefix in self:
-            #  Conflicting prefix
+        if prefix in self or self._inherited_differently(prefix, uri):
+            #  Conflicting prefix (here, or with a different namespace in a
+            #  parent manager whose names this manager also hands out)
             new_prefix = self._get_unused_prefix(prefix)
             new_namespace = Namespace(new_prefix, namespace.uri)
             self._rename_map[namespace] = new_namespace
@@ -1240,13 +1241,25 @@ class NamespaceManager(dict):
         self._anon_id_count += 1
         return Identifier("_:%s%d" % (local_prefix, self._anon_id_count))
 
+    def _inherited(self, prefix):
+        manager = self.parent
+        while manager is not None:
+            if prefix in manager:
+                return manager[prefix]
+            manager = manager.parent
+        return None
+
+    def _inherited_differently(self, prefix, uri):
+        inherited = self._inherited(prefix)
+        return inherited is not None and inherited.uri != uri
+
     def _get_unused_prefix(self, original_prefix):
-        if original_prefix not in self:
+        if original_prefix not in self and self._inherited(original_prefix) is None:
             return original_prefix
         count = 1
         while True:
             new_prefix = "_".join((original_prefix, str(count)))
-            if new_prefix in self:
+            if new_prefix in self or self._inherited(new_prefix) is not None:
                 count += 1
             else:
                 return new_prefix
